@@ -1,7 +1,7 @@
 (* C12 Checksum qualifier: one canonical text, typed round trip, order independence *)
 Load "coq/props/Hdr".
 From Coq Require Import Permutation.
-From PM Require Import Cs Cs2 Cs4 Cs5 C04 Quals Assemble More.
+From PM Require Import Cs Cs2 Cs4 Cs5 C04 Quals Assemble More Exec CsRef.
 Lemma src_rt : rt_ok cfg. Proof. prove_rt. Qed.
 Lemma src_cfg_ok : cfg_ok cfg. Proof. sc. Qed.
 (* every hash-map iteration order gives the same text *)
@@ -33,3 +33,19 @@ Theorem C12_stored_checksum_reads_back : forall (T E : Type) (sh : shape T E) t 
   build cfg sh t p = Ok (t', p') -> forall v, q_get cfg (p_quals p') s_checksum = Some v -> exists m, cs_try_from cfg v = Ok m /\ cs_to_text m = Ok v /\ v <> [].
 Proof. intros T E sh t p t' p'. apply C12_stored_checksum_round_trips; sc. Qed.
 Print Assumptions C12_stored_checksum_reads_back.
+(* the same set of entries in any order and hex case has one text *)
+Theorem C12_one_text_for_the_same_entries : forall m1 m2, NoDup (map fst m1) -> Permutation (map norm m1) (map norm m2) -> cs_to_text m1 = cs_to_text m2.
+Proof. apply C12_same_entries. Qed.
+Print Assumptions C12_one_text_for_the_same_entries.
+(* insert / insert_raw act on the map keyed by the lower-cased algorithm; remove on the exact key; along ANY operation sequence keys stay distinct and lower-cased *)
+Theorem C12_insert_is_map_update : forall m a v, KI cfg m -> utf8_valid a = true ->
+  let m' := cs_insert_raw cfg m a v in
+  KI cfg m' /\ cm_get m' (lowercase_str cfg a) = Some v /\ (forall k, k <> lowercase_str cfg a -> cm_get m' k = cm_get m k).
+Proof. apply cs_insert_raw_spec; sc. Qed.
+Print Assumptions C12_insert_is_map_update.
+Theorem C12_remove_is_map_update : forall m k k', cm_get (cm_remove m k) k = None /\ (k' <> k -> cm_get (cm_remove m k) k' = cm_get m k').
+Proof. intros m k k'. split; [apply cm_remove_get|apply cm_remove_other]. Qed.
+Print Assumptions C12_remove_is_map_update.
+Theorem C12_any_operation_sequence_keeps_keys_canonical : forall ops, Forall cop_utf8 ops -> KI cfg (crun cfg ops).
+Proof. apply crun_KI; sc. Qed.
+Print Assumptions C12_any_operation_sequence_keeps_keys_canonical.
